@@ -5,6 +5,7 @@ import (
 	"go/token"
 	"go/types"
 	"math"
+	"strings"
 
 	"golang.org/x/tools/go/ssa"
 )
@@ -30,6 +31,27 @@ func boolCallFact(c Cmp, want bool, fn *ssa.Function) (*ssa.Call, bool) {
 // constant (or an ||-chain of such), the set of accepted parameter values as
 // one interval; ok=false if the shape is not understood or not contiguous.
 func acceptInterval(fn *ssa.Function) (lo, hi int64, ok bool) {
+	// exact powerset evaluation for 8-bit predicates (any shape: comparison, switch, ||-chain, mask test)
+	if set, okS := acceptSet8(fn); okS {
+		lo, hi = -1, -1
+		n := 0
+		for i, b := range set {
+			if b {
+				if lo < 0 {
+					lo = int64(i)
+				}
+				hi = int64(i)
+				n++
+			}
+		}
+		if n == 0 {
+			return 1, 0, true
+		}
+		if int64(n) != hi-lo+1 {
+			return lo, hi, false // not contiguous
+		}
+		return lo, hi, true
+	}
 	if len(fn.Params) != 1 {
 		return 0, 0, false
 	}
@@ -159,7 +181,7 @@ func checkC12(c *Check, p *Program) {
 		c.Fail("C12.anchor", "types LData/LDataReq/LDataInd/GroupEvent", "", "not found")
 		return
 	}
-	fC1, fC2 := p.Field("knx/cemi", "LData", "Control1"), p.Field("knx/cemi", "LData", "Control2")
+	fC2 := p.Field("knx/cemi", "LData", "Control2")
 	fSrc, fDst, fData := p.Field("knx/cemi", "LData", "Source"), p.Field("knx/cemi", "LData", "Destination"), p.Field("knx/cemi", "LData", "Data")
 	eCmd, eSrc, eDst, eData := p.Field("knx", "GroupEvent", "Command"), p.Field("knx", "GroupEvent", "Source"), p.Field("knx", "GroupEvent", "Destination"), p.Field("knx", "GroupEvent", "Data")
 	aCmd, aData := p.Field("knx/cemi", "AppData", "Command"), p.Field("knx/cemi", "AppData", "Data")
@@ -177,132 +199,103 @@ func checkC12(c *Check, p *Program) {
 	}
 	bn := FuncName(builder)
 	c.Analysed("functions", bn)
-	// result cell and its initial value
-	rets := returnsOf(builder)
-	var cell *ssa.Alloc
-	if len(rets) == 1 {
-		if u, ok := rets[0].Results[0].(*ssa.UnOp); ok && u.Op == token.MUL {
-			cell, _ = u.X.(*ssa.Alloc)
-		}
-	}
-	if cell == nil {
-		c.Fail("C12.out", bn+" builds one frame value", p.Pos(builder.Pos()), "the result is not a single local frame")
-		return
-	}
-	var tmpl *ssa.Global
-	for _, st := range cellStores(cell) {
-		if u, ok := st.Val.(*ssa.UnOp); ok && u.Op == token.MUL {
-			if g, ok := u.X.(*ssa.Global); ok {
-				tmpl = g
-			}
-		}
-	}
-	c.Decide(tmpl != nil, "C12.out", bn+" starts from the template variable", p.Pos(builder.Pos()), "ldata := <package-level template>", "the frame does not start from the package-level template")
-	if tmpl != nil {
-		// evaluate the template's initialiser
-		vals := map[*types.Var]uint64{}
-		has := map[*types.Var]bool{}
-		writers := 0
-		for _, fn := range p.AllFuncs {
-			instrsOf(fn, func(in ssa.Instruction) {
-				st, ok := in.(*ssa.Store)
-				if !ok {
-					return
-				}
-				root := st.Addr
-				if fa, ok := root.(*ssa.FieldAddr); ok {
-					root = fa.X
-				}
-				if root != ssa.Value(tmpl) {
-					return
-				}
-				if fn.Name() != "init" {
-					writers++
-					return
-				}
-				f := fieldOfAddr(st.Addr)
-				ev := &BitEval{P: p, Env: map[ssa.Value]BV{}}
-				alts := ev.Eval(st.Val)
-				if len(alts) == 1 && alts[0].V != nil {
-					if k, ok := alts[0].V.Const(); ok && f != nil {
-						vals[f], has[f] = k, true
-					}
-				}
-			})
-		}
-		c.Decide(writers == 0, "C12.out", tmpl.Name()+" is written only by its initialiser", p.Pos(tmpl.Pos()), "no store outside init", fmt.Sprintf("%d store(s) to the template outside its initialiser", writers))
-		c.Decide(has[fC1] && vals[fC1] == 0x3E, "C12.out", tmpl.Name()+".Control1 = no-repeat | no-system-broadcast | want-ack | priority low", p.Pos(tmpl.Pos()), "0x3E", fmt.Sprintf("template Control1 evaluates to %#x (known=%v), expected 0x3E (low priority = 3 in bits 3..2, flags 0x20|0x10|0x02, standard-frame bit clear)", vals[fC1], has[fC1]))
-		c.Decide(has[fC2] && vals[fC2] == 0xE0, "C12.out", tmpl.Name()+".Control2 = group address | hop count 6", p.Pos(tmpl.Pos()), "0xE0", fmt.Sprintf("template Control2 evaluates to %#x (known=%v), expected 0xE0 (bit 7 set, hop count 6 in bits 6..4)", vals[fC2], has[fC2]))
-	}
-	// field stores into the frame cell
-	stores := map[*types.Var][]*ssa.Store{}
-	instrsOf(builder, func(in ssa.Instruction) {
-		st, ok := in.(*ssa.Store)
-		if !ok {
-			return
-		}
-		if fa, ok := st.Addr.(*ssa.FieldAddr); ok && fa.X == ssa.Value(cell) {
-			f := structField(fa.X.Type(), fa.Field)
-			stores[f] = append(stores[f], st)
-		}
-	})
-	evField := func(v ssa.Value, f *types.Var) bool {
-		v = stripAllConv(v)
-		return loadedField(v) == f
-	}
-	chk1 := func(f *types.Var, what string, ok func(ssa.Value) bool) {
-		sts := stores[f]
-		good := len(sts) == 1 && ok(sts[0].Val) && !inAnyLoop(sts[0].Block()) && sts[0].Block().Dominates(rets[0].Block())
-		pos := p.Pos(builder.Pos())
-		if len(sts) > 0 {
-			pos = p.InstrPos(sts[0])
-		}
-		c.Decide(good, "C12.out", bn+" "+what, pos, "stored once, unconditionally", "the frame's "+f.Name()+" is not "+what+" (stored "+fmt.Sprint(len(sts))+" time(s))")
-	}
-	chk1(fSrc, "Source = event.Source", func(v ssa.Value) bool { return evField(v, eSrc) })
-	chk1(fDst, "Destination = uint16(event.Destination)", func(v ssa.Value) bool { return evField(v, eDst) })
-	chk1(fData, "Data = &AppData{Command: APCI(event.Command), Data: event.Data}", func(v ssa.Value) bool {
-		al := allocOf(v)
-		if al == nil || !isNamed(deref(al.Type()), cemiPath, "AppData") {
-			return false
-		}
-		fs := fieldStores(al)
-		if len(fs) != 2 || len(fs[aCmd]) != 1 || len(fs[aData]) != 1 {
-			return false
-		}
-		return evField(fs[aCmd][0].Val, eCmd) && evField(fs[aData][0].Val, eData)
-	})
-	for f := range stores {
-		if f != fSrc && f != fDst && f != fData && f != fC1 {
-			c.Fail("C12.out", bn+" writes LData."+f.Name(), p.InstrPos(stores[f][0]), "the builder overrides a template field the property fixes")
-		}
-	}
-	// standard-frame flag
+	// the frame the builder returns, per path: evaluated by the layout interpreter (package-level
+	// template variables written only by their initialiser evaluate to constants)
 	stdC, _ := p.Pkg("knx/cemi").Scope().Lookup("Control1StdFrame").(*types.Const)
 	stdV := int64(-1)
 	if stdC != nil {
 		stdV, _ = constInt(ssa.NewConst(stdC.Val(), stdC.Type()))
 	}
 	c.Decide(stdV == 0x80, "C12.out", "Control1StdFrame is bit 7", "", "0x80", fmt.Sprintf("%#x", stdV))
-	sts := stores[fC1]
-	c.Exact("C12.out", bn+" stores to Control1", len(sts), 1, p.Pos(builder.Pos()))
-	for _, st := range sts {
-		bo, ok := st.Val.(*ssa.BinOp)
-		okV := ok && bo.Op == token.OR
-		if okV {
-			k, isK := constInt(bo.Y)
-			okV = isK && k == stdV && loadedField(bo.X) == fC1
+	li := &layoutInterp{p: p}
+	bpaths := li.run(builder, []AV{li.valueOfPath("ev", builder.Params[0].Type())}, nil)
+	bpos := p.Pos(builder.Pos())
+	c.Decide(len(bpaths) >= 2, "C12.out", bn+" evaluates on every path", bpos, fmt.Sprintf("%d paths", len(bpaths)), fmt.Sprintf("%d complete path(s) through the builder: the frame cannot depend on the payload length", len(bpaths)))
+	sawShort, sawLong := false, false
+	for _, pp := range bpaths {
+		lenIv := pp.env.get("len(ev.Data)")
+		side := ""
+		switch {
+		case lenIv.hi <= 15:
+			side, sawShort = "payload <= 15", true
+		case lenIv.lo >= 16:
+			side, sawLong = "payload > 15", true
+		default:
+			c.Fail("C12.out", bn+" distinguishes payloads at 15 bytes", bpos, fmt.Sprintf("a path covers len(event.Data) in [%s,%s]: the standard-frame decision is not taken exactly at <= 15", ival(lenIv.lo), ival(lenIv.hi)))
+			continue
 		}
-		c.Decide(okV, "C12.out", bn+" sets the standard-frame flag by or-ing", p.InstrPos(st), "Control1 |= Control1StdFrame", "Control1 is assigned "+describe(st.Val))
-		// exactly on len(event.Data) <= 15
-		lo, hi, n := pathInterval(factsAt(st.Block()), func(v ssa.Value) bool {
-			call, ok := v.(*ssa.Call)
-			return ok && builtinName(call) == "len" && evField(call.Common().Args[0], eData)
-		})
-		c.Decide(n >= 1 && hi == 15 && lo == math.MinInt64, "C12.out", bn+" standard frame exactly when the payload is at most 15 bytes", p.InstrPos(st), "flag set on the edge len(event.Data) <= 15", fmt.Sprintf("the standard-frame flag is set on len(event.Data) in [%s,%s], the property demands exactly <= 15", ival(lo), ival(hi)))
-		min, max := pathCount(builder.Blocks[0], func(in ssa.Instruction) bool { return in == ssa.Instruction(st) }, nil)
-		c.Decide(min == 0 && max == 1, "C12.out", bn+" flag left clear otherwise", p.InstrPos(st), "one conditional store", "the flag store is unconditional or repeated")
+		key := bn + " [" + side + "]"
+		if len(pp.notes) > 0 || len(pp.effect) > 0 {
+			c.Fail("C12.out", key+" understood", bpos, "the builder contains something the evaluation does not model or has a side effect: "+strings.Join(append(append([]string{}, pp.notes...), pp.effect...), "; "))
+			continue
+		}
+		ag, isAgg := pp.ret.(avAgg)
+		if !isAgg {
+			c.Fail("C12.out", key+" returns a frame value", bpos, "the result does not evaluate to a struct value field by field ("+describeAV(pp.ret)+")")
+			continue
+		}
+		fieldConst := func(name string) (uint64, bool) {
+			v, ok := ag.elems["."+name].(avInt)
+			if !ok {
+				return 0, false
+			}
+			return v.bv.Const()
+		}
+		wantC1 := uint64(0x3E)
+		if side == "payload <= 15" {
+			wantC1 |= 0x80
+		}
+		k1, ok1 := fieldConst("Control1")
+		c.Decide(ok1 && k1 == wantC1, "C12.out", key+" Control1", bpos, fmt.Sprintf("%#x: no-repeat | no-system-broadcast | want-ack | priority low, standard-frame bit %d", wantC1, wantC1>>7), fmt.Sprintf("Control1 evaluates to %#x (constant=%v), expected %#x (flags 0x20|0x10|0x02, priority low = 3 in bits 3..2, standard-frame bit set exactly for payloads of at most 15 bytes)", k1, ok1, wantC1))
+		k2, ok2 := fieldConst("Control2")
+		c.Decide(ok2 && k2 == 0xE0, "C12.out", key+" Control2", bpos, "0xE0: group address | hop count 6", fmt.Sprintf("Control2 evaluates to %#x (constant=%v), expected 0xE0 (bit 7 set, hop count 6 in bits 6..4)", k2, ok2))
+		okInfo := true
+		if iv, has := ag.elems[".Info"]; has {
+			sl, isSl := iv.(avSlice)
+			okInfo = isSl && sl.len != nil
+			if okInfo {
+				n, isK := sl.len.IsConst()
+				okInfo = isK && n == 0
+			}
+		}
+		c.Decide(okInfo, "C12.out", key+" no additional info", bpos, "Info is empty", "the frame carries additional info "+describeAV(ag.elems[".Info"]))
+		src, _ := ag.elems[".Source"].(avInt)
+		c.Decide(src.bv.Equal(bvSrc("ev.Source", 16)), "C12.out", key+" Source = event.Source", bpos, "copied bit for bit", "the frame's Source is "+describeAV(ag.elems[".Source"])+", not event.Source")
+		dst, _ := ag.elems[".Destination"].(avInt)
+		c.Decide(dst.bv.Equal(bvSrc("ev.Destination", 16)), "C12.out", key+" Destination = uint16(event.Destination)", bpos, "copied bit for bit", "the frame's Destination is "+describeAV(ag.elems[".Destination"])+", not event.Destination")
+		// Data = &AppData{Command: APCI(event.Command), Data: event.Data}
+		okData, why := false, "the frame's Data is "+describeAV(ag.elems[".Data"])
+		if ifc, isI := ag.elems[".Data"].(avIface); isI && ifc.typ != nil && isPtrToNamed(ifc.typ, cemiPath, "AppData") {
+			if ad, isA := ifc.inner.(avAddr); isA && ad.cell != "" {
+				get := func(f string) AV {
+					if v, ok := pp.mem[ad.cell+"."+f]; ok {
+						return v
+					}
+					if whole, ok := pp.mem[ad.cell].(avAgg); ok {
+						return whole.elems["."+f]
+					}
+					return nil
+				}
+				cmd, _ := get("Command").(avInt)
+				dat, _ := get("Data").(avSlice)
+				okCmd := cmd.bv.Equal(bvSrc("ev.Command", 8))
+				okDat := dat.region == "f:ev.Data" && dat.off != nil && dat.len != nil && dat.off.String() == "0" && dat.len.String() == "len(ev.Data)"
+				okNum := true
+				if nb, has := get("Numbered").(avBool); has && !(nb.known && !nb.val) {
+					okNum = false
+				}
+				if sq, has := get("SeqNumber").(avInt); has {
+					if k, isK := sq.bv.Const(); !isK || k != 0 {
+						okNum = false
+					}
+				}
+				okData = okCmd && okDat && okNum
+				why = fmt.Sprintf("the application data unit is not {Command: APCI(event.Command), Data: event.Data, unnumbered}: command ok=%v, data ok=%v, unnumbered=%v", okCmd, okDat, okNum)
+			}
+		}
+		c.Decide(okData, "C12.out", key+" Data = &AppData{Command: APCI(event.Command), Data: event.Data}", bpos, "fresh application data unit with the event's command and payload", why)
 	}
+	c.Decide(sawShort && sawLong, "C12.out", bn+" both payload classes occur", bpos, "a path for payloads of at most 15 bytes and one for longer payloads", fmt.Sprintf("paths for short payloads: %v, for long payloads: %v", sawShort, sawLong))
 	// wrappers
 	nWrap := 0
 	for _, w := range []struct{ recv, wrapT, client string }{{"GroupTunnel", "LDataReq", "Tunnel"}, {"GroupRouter", "LDataInd", "Router"}} {
